@@ -26,14 +26,19 @@ const (
 	Gate      = "gate"       // blocks until the caller releases it after Wait returned
 	Barrier   = "barrier"    // meets the other barrier jobs (all must run at once)
 	ErrCtx    = "errctx"     // fails with an error wrapping context.DeadlineExceeded; no context is cancelled
+	ErrSame   = "errsame"    // fails with an error value shared by every errsame job (a package-level sentinel)
+	ErrWrap   = "errwrap"    // fails with its own error that wraps the shared sentinel
+	OwnGoexit = "own-goexit" // cancels its own (per-job) context, then kills its goroutine
 )
 
 // JobSpec describes one job. Deps index earlier jobs (duplicates allowed).
 type JobSpec struct {
 	Deps   []int  `json:"deps,omitempty"`
 	Out    string `json:"out"`
-	Caller int    `json:"caller,omitempty"` // 0: main caller, 1: second caller thread
+	Caller int    `json:"caller,omitempty"`  // 0: main caller, 1: second caller thread
 	OwnCtx bool   `json:"own_ctx,omitempty"` // enqueued with its own, already cancelled context
+	// OwnLive: enqueued with its own live context (outcome own-goexit cancels it)
+	OwnLive bool `json:"own_live,omitempty"`
 }
 
 // Scenario is one closed harness.
@@ -66,6 +71,9 @@ func (s *Scenario) String() string {
 		}
 		if j.OwnCtx {
 			c += "@cancelledctx"
+		}
+		if j.OwnLive {
+			c += "@ownctx"
 		}
 		js = append(js, j.Out+d+c)
 	}
@@ -145,9 +153,14 @@ func jobObj(round, i int) string { return fmt.Sprintf("r%d.job%d", round, i) }
 // Body returns the thread-0 body of the scenario and the Run it fills in.
 func (s *Scenario) Body() (func(), *Run) {
 	r := &Run{Sc: s}
+	shared := errors.New("shared sentinel: not found")
 	for i := range s.Jobs {
 		if s.Jobs[i].Out == ErrCtx {
 			r.Errs = append(r.Errs, fmt.Errorf("job %d inner timeout: %w", i, context.DeadlineExceeded))
+		} else if s.Jobs[i].Out == ErrSame {
+			r.Errs = append(r.Errs, shared)
+		} else if s.Jobs[i].Out == ErrWrap {
+			r.Errs = append(r.Errs, fmt.Errorf("job %d lookup: %w", i, shared))
 		} else {
 			r.Errs = append(r.Errs, fmt.Errorf("job %d failed", i))
 		}
@@ -204,9 +217,20 @@ func (s *Scenario) round(r *Run, round int) {
 			ownCtx = c
 		}
 	}
+	liveCtx := map[int]context.Context{}
+	liveCancel := map[int]func(){}
+	for i, j := range s.Jobs {
+		if j.OwnLive {
+			c, cf := vs.WithCancel(context.Background(), fmt.Sprintf("live%d.%d", round, i))
+			liveCtx[i], liveCancel[i] = c, cf
+		}
+	}
 	jctx := func(i int) context.Context {
 		if s.Jobs[i].OwnCtx {
 			return ownCtx
+		}
+		if s.Jobs[i].OwnLive {
+			return liveCtx[i]
 		}
 		return ctx
 	}
@@ -223,9 +247,15 @@ func (s *Scenario) round(r *Run, round int) {
 				vs.Emit(obj, "start", nil)
 				switch j.Out {
 				case OK:
-				case Err, ErrCtx:
+				case Err, ErrCtx, ErrSame, ErrWrap:
 					vs.Emit(obj, "end", "err")
 					return r.Errs[i]
+				case OwnGoexit:
+					if cf := liveCancel[i]; cf != nil {
+						cf()
+					}
+					vs.Emit(obj, "end", "goexit")
+					runtime.Goexit()
 				case Goexit:
 					vs.Emit(obj, "end", "goexit")
 					runtime.Goexit()
